@@ -2,7 +2,7 @@
    Model/Attr.v transliterates __setattr__ / _set_attributes / _check_attribute / _check_required_attributes; the value
    verdict is a parameter (C05).  The theorems below hold for every declaration table, every reserved-name set, every
    state and every sequence of set / overwrite / remove; the finite name facts are computed over the regenerated tables. *)
-From MX Require Import Spec.Naming Gen.Schema Gen.Lib Model.Tables Model.Attr.
+From MX Require Import Spec.Naming Gen.Schema Gen.Lib Model.Tables Model.Attr Gen.Code Model.EltEffects.
 From Coq Require Import List String Bool.
 Import ListNotations.
 Open Scope string_scope.
@@ -56,6 +56,21 @@ Print Assumptions C04_dispatch.
 
 (* ---- recorded deviations ---- *)
 (* RC12: the schema attribute `name` is captured by the read-only Python property of the same name *)
+(* the order of checks and stores of a dot / parser assignment in the SOURCE (__setattr__ hands ONE key to _set_attributes; the statement
+   shapes of __setattr__, _set_attributes and _check_attribute are matched exactly by the translator, fail-closed): an assignment that
+   raises has stored nothing, whether the value is None (removal) or not *)
+Theorem C04_assignment_checks_first : tr_attr_set_ok = true /\ checks_first attr_none_path = true /\ checks_first attr_value_path = true.
+Proof. repeat split; reflexivity. Qed.
+Theorem C04_assignment_atomic : forall effs, In effs [attr_none_path; attr_value_path] ->
+  forall fails log, fst (eexec effs fails 0 log) = ERaised -> snd (eexec effs fails 0 log) = log.
+Proof.
+  intros effs I fails log. apply checks_first_atomic. destruct C04_assignment_checks_first as (_ & A & B). destruct I as [<-|[<-|[]]]; assumption.
+Qed.
+Print Assumptions C04_assignment_atomic.
+(* a constructor call with several keywords, one None and a later one invalid, pops before it checks - but the element under construction is
+   discarded by the exception, so nothing observable keeps the partial store *)
+Example C04_many_keys_not_checks_first : checks_first attr_many_path = false.
+Proof. reflexivity. Qed.
 Example C04_refuted_name : mem_str "name" attr_names = true /\ captured "name" = true.
 Proof. split; vm_compute; reflexivity. Qed.
 (* RC13: the schema's prefixed attributes are declared without prefix in the library *)
